@@ -40,6 +40,8 @@ type ldScenario struct {
 	Expiry     int      `json:"expiry"`     // 1 = ExpiryWriting(1h); the writer kind "advance" moves the clock by 2h
 	OutSeq     []string `json:"outseq"`     // outcome of the i-th loader run (script replay of LoadRace.tla behaviours); then Outcomes at random
 	HGate      int      `json:"hgate"`      // 1 = the atomic deletion handler is a gate ("h.atomic"): user code inside the table computation
+	Stale      int      `json:"stale"`      // 1 = the preloaded entry is due for refresh when the race starts (the clock moved past its refresh time) and the
+	                                        // refresh calculator's reload hook is a gate ("rc.reload"): user code that runs while a reload is being installed
 	Extra      int      `json:"extra"`      // 1 = the bulk loader fetches "the whole page": it also supplies the key of {1,2} it was not asked for
 }
 
@@ -72,7 +74,7 @@ type ldResult struct {
 var ldPoints = map[string]bool{
 	"get.afterLookup": true, "ld.enter": true, "ld.exit": true, "ld.beforeInstall": true, "ld.afterInstall": true,
 	"set.afterCompute": true, "inv.afterCompute": true, "cmp.afterCompute": true, "ev.beforeDelete": true, "db.enter": true,
-	"cp.lock": true, "h.atomic": true, "exec.start": true,
+	"cp.lock": true, "h.atomic": true, "exec.start": true, "rc.reload": true,
 }
 
 var errLdScripted = errors.New("verif: scripted failure")
@@ -106,7 +108,7 @@ func runLoadScenario(sc ldScenario) ldResult {
 		s.StepTimeout = 15 * time.Millisecond // a scripted step waits for the released goroutine itself; only a blocked one runs into this
 	}
 	if i := strings.Index(sc.Policy, "+"); i >= 0 {
-		target := map[string]string{"+inflight": "ld.exit", "+atinstall": "ld.beforeInstall"}[sc.Policy[i:]]
+		target := map[string]string{"+inflight": "ld.exit", "+atinstall": "ld.beforeInstall", "+atcalc": "rc.reload"}[sc.Policy[i:]]
 		sc.Policy = sc.Policy[:i]
 		// bias towards the window C09 is about: first let a load get in flight (a goroutine parked inside the loader),
 		// then let the writers run to completion while it is parked, then continue with the base policy
@@ -193,6 +195,9 @@ func runLoadScenario(sc ldScenario) ldResult {
 	}
 	if sc.Refresh == 1 {
 		o.RefreshCalculator = RefreshWriting[int, int](time.Hour)
+		if sc.Stale == 1 {
+			o.RefreshCalculator = ldRefreshCalc{reload: func() { s.Point("rc.reload", 0) }}
+		}
 	}
 	if sc.Expiry == 1 {
 		o.ExpiryCalculator = ExpiryWriting[int, int](time.Hour)
@@ -231,6 +236,9 @@ func runLoadScenario(sc ldScenario) ldResult {
 		// the goroutines of the preload must be gone before the scheduler starts adopting (names x1, x2, ... are scripted)
 		for i := 0; i < 2000 && execN.Load() != 0; i++ {
 			time.Sleep(100 * time.Microsecond)
+		}
+		if sc.Stale == 1 {
+			clk.now.Add(int64(2 * time.Hour)) // due for refresh (nothing expires in these scenarios)
 		}
 	}
 	runs := 0
@@ -306,7 +314,9 @@ func runLoadScenario(sc ldScenario) ldResult {
 			}
 		}
 	}
-	loader := ldLoader{load: single("Load"), reload: single("Reload")}
+	loader := ldLoader{load: single("Load"), reload: single("Reload"), onReload: func(k, old int) {
+		note(ldEvent{T: "reloadof", Op: "Reload", K: k, V: old})
+	}}
 	bulk := BulkLoaderFunc[int, int](func(ctx context.Context, keys []int) (map[int]int, error) {
 		id := newRun()
 		oc := pickOutcome(id)
@@ -534,10 +544,30 @@ func runLoadScenario(sc ldScenario) ldResult {
 type ldLoader struct {
 	load   func(ctx context.Context, k int) (int, error)
 	reload func(ctx context.Context, k int) (int, error)
+	// onReload is told the value a reload starts from
+	onReload func(k, old int)
 }
 
 func (l ldLoader) Load(ctx context.Context, k int) (int, error) { return l.load(ctx, k) }
-func (l ldLoader) Reload(ctx context.Context, k int, old int) (int, error) { return l.reload(ctx, k) }
+func (l ldLoader) Reload(ctx context.Context, k int, old int) (int, error) {
+	if l.onReload != nil {
+		l.onReload(k, old)
+	}
+	return l.reload(ctx, k)
+}
+
+// ldRefreshCalc: RefreshWriting(1h) whose reload hook is user code the scheduler can park
+type ldRefreshCalc struct{ reload func() }
+
+func (ldRefreshCalc) RefreshAfterCreate(Entry[int, int]) time.Duration      { return time.Hour }
+func (ldRefreshCalc) RefreshAfterUpdate(Entry[int, int], int) time.Duration { return time.Hour }
+func (c ldRefreshCalc) RefreshAfterReload(Entry[int, int], int) time.Duration {
+	c.reload()
+	return time.Hour
+}
+func (ldRefreshCalc) RefreshAfterReloadFailure(e Entry[int, int], _ error) time.Duration {
+	return e.RefreshableAfter()
+}
 
 func errClassLd(err error) string {
 	switch {
